@@ -224,6 +224,34 @@ FAMILIES.update({
     },
 })
 
+# reference models for the independent emitters (C04, C09) and the surface-choice vectors
+UVL_SYNTAX_OPS = {'AND', 'OR', 'IMPLIES', 'EQUIVALENCE'}
+FAMILIES.update({
+    'Ref-uvl-Ctc': {
+        t: dict(consts=dict(N=3, MaxKids=2, MinHi=1, Axes={'ctc'}, MaxCtc=2, CtcDepth=1, CtcBinOps=UVL_SYNTAX_OPS, CtcMinFeatures=3,
+                            Fmt='uvl'), invariants=tlc.GEN_INVARIANTS, simulate=dict(num=400, depth=6)) for t in ('quick', 'thorough')},
+    'Ref-uvl-Arith': {
+        t: dict(consts=dict(N=2, MaxKids=1, MinHi=1, Axes={'ctc', 'type'}, Types={'Integer'}, MaxCtc=1, CtcDepth=0, CtcBinOps=set(),
+                            CtcArith=True, CtcMinFeatures=2, Fmt='uvl'), invariants=tlc.GEN_INVARIANTS, cap=400) for t in ('quick', 'thorough')},
+    'Ref-Mix': {   # mixtures of every decoration, by simulation
+        t: dict(consts=dict(N=6, MaxKids=3, MinHi=1, AllowStar=True, Axes={'abs', 'type', 'fcard', 'attr', 'ctc'},
+                            Types={'Integer', 'Real', 'String'}, FCards={(0, 1), (2, 3), (1, -1), (2, 2)}, AttrNames=['a1', 'a2'],
+                            AttrVals=ATTR_VALS_UVL, MaxCtc=2, CtcDepth=1, CtcBinOps=UVL_SYNTAX_OPS, CtcMinFeatures=4, Fmt='uvl', MaxLevel=14),
+                invariants=tlc.GEN_INVARIANTS, simulate=dict(num=(150 if t == 'quick' else 1500), depth=14)) for t in ('quick', 'thorough')},
+})
+
+
+def surface(dims, brokens, pool):
+    consts = dict(DimNames=set(dims), DimVals=tlc.StrFun({k: set(v) for k, v in dims.items()}),
+                  Defaults=tlc.StrFun({k: v[0] for k, v in dims.items()}), Brokens=set(brokens) | {'none'}, Pool=pool)
+    return {t: dict(module='FMSurface', defaults=False, consts=consts, invariants=['TypeOK']) for t in ('quick', 'thorough')}
+
+
+B = ['0', '1']
+FAMILIES['Surface-uvl'] = surface({'quote': B, 'parens': B, 'merge': B, 'comments': B,
+                                   'header': ['none', 'namespace', 'imports', 'include', 'all']},
+                                  ['bracket', 'operator', 'section', 'indent', 'badchar'], 12)
+
 _cache = {}
 
 
